@@ -11,3 +11,51 @@ package parser
 // always on a token (the token list ends with EOF and is never empty).
 //@ typeinv parser 0 <= self.pos && self.pos < len(self.tokens)
 //@ sweep C10 cedar_unmarshal.go
+
+// The tokenizer always ends the token list with EOF (assumed here; the
+// scanner itself is the subject of C18).
+//@ func Tokenize
+//@   trusted
+//@   results toks, err
+//@   ensures err == nil ==> len(toks) > 0
+//@ func TokenizeReader
+//@   trusted
+//@   results toks, err
+//@   ensures err == nil ==> len(toks) > 0
+
+//@ func newParser
+//@   requires len(tokens) > 0
+//@   results p
+//@   ensures 0 <= p.pos && p.pos < len(p.tokens)
+
+//@ func (parser) annotation
+//@   requires a != nil && known != nil
+//@ func (parser) effect
+//@   requires a != nil
+//@   results pol, err
+//@   ensures err == nil ==> pol != nil
+//@ func (parser) principal
+//@   requires policy != nil
+//@ func (parser) action
+//@   requires policy != nil
+//@ func (parser) resource
+//@   requires policy != nil
+//@ func (parser) unary
+//@   loop 2
+//@     invariant i < len(ops)
+//@ func (parser) conditions
+//@   requires policy != nil
+//@   loop 1
+//@     invariant policy != nil
+
+//@ func (Policy) fromCedar
+//@   modifies parser
+//@   requires parser != nil && 0 <= parser.pos && parser.pos < len(parser.tokens)
+//@   ensures 0 <= parser.pos && parser.pos < len(parser.tokens)
+
+// A decoder either has no parser yet or one that satisfies the parser invariant.
+//@ typeinv Decoder self.parser == nil || (0 <= self.parser.pos && self.parser.pos < len(self.parser.tokens))
+//@ func (parser) errorf
+//@   results err
+//@   ensures err != nil
+
